@@ -1091,6 +1091,7 @@ fn main() {
     let stride: u64 = (total_idx * n_faults_per_idx).div_ceil(budget_runs).max(1);
     let mut fcases: Vec<(String, (Case, Vec<u64>, Vec<(&'static str, Fault)>))> = vec![];
     let mut swept: u64 = 0;
+    let (mut kind_extra, mut kinds_seen) = (0u64, 0u64);
     for (key, c, h) in &chosen {
         let s = if op_len(c, h) <= small { 1 } else { stride.max(op_len(c, h).div_ceil(cap_per_op)) };
         let (a, b) = if is_assign(c) { (0, h.n) } else { h.op_range };
@@ -1106,7 +1107,25 @@ fn main() {
                 idxs.push(i);
             }
         }
-        swept += idxs.len() as u64;
+        // besides the stride: the first assignment of every cell kind (region name, column,
+        // region-relative offset) inside the operation, so that no region shape is stepped over
+        let mut kind_idxs: Vec<u64> = vec![];
+        if s > 1 {
+            if let Some(kinds) = kof(c).and_then(|k| vcore::in_pool(1, || vgad::trace_kinds(*c, k))) {
+                for (_, occ) in &kinds {
+                    if let Some(i) = occ.iter().find(|i| **i >= a && **i < b) {
+                        if !idxs.contains(i) {
+                            kind_idxs.push(*i);
+                        }
+                    }
+                }
+                kind_idxs.sort();
+                kind_idxs.dedup();
+                kind_extra += kind_idxs.len() as u64;
+                kinds_seen += kinds.iter().filter(|(_, occ)| occ.iter().any(|i| *i >= a && *i < b)).count() as u64;
+            }
+        }
+        swept += (idxs.len() + kind_idxs.len()) as u64;
         let mut faults = base_faults.clone();
         let mut lf = match &c.kind {
             Kind::F(f, _) => limb_faults(f.spec().log2_base),
@@ -1118,6 +1137,11 @@ fn main() {
         faults.extend(lf);
         for (ci, chunk) in idxs.chunks(8).enumerate() {
             fcases.push((format!("{key}#{ci}"), ((*c).clone(), chunk.to_vec(), faults.clone())));
+        }
+        // the kind representatives beyond the stride: the first two fault values in quick, all in thorough
+        let kf: Vec<(&'static str, Fault)> = if tier.is_thorough() { faults.clone() } else { faults.iter().take(2).cloned().collect() };
+        for (ci, chunk) in kind_idxs.chunks(16).enumerate() {
+            fcases.push((format!("{key}#k{ci}"), ((*c).clone(), chunk.to_vec(), kf.clone())));
         }
     }
     cx.note(format!(
@@ -1132,10 +1156,11 @@ fn main() {
         swept,
         n_faults_per_idx
     ));
+    cx.note(format!("fault phase: strided operations contain {kinds_seen} cell kinds (region name, column, offset); the first assignment of each is swept as well ({kind_extra} indices beyond the stride)"));
     // round-robin over the operations (all first chunks, then all second chunks, ...): if the wall
     // budget caps this phase, every operation has been swept to the same depth
     {
-        let chunk_no = |k: &String| k.rsplit_once('#').and_then(|(_, n)| n.parse::<usize>().ok()).unwrap_or(0);
+        let chunk_no = |k: &String| k.rsplit_once('#').and_then(|(_, n)| n.trim_start_matches('k').parse::<usize>().ok()).unwrap_or(0);
         let mut order: Vec<usize> = (0..fcases.len()).collect();
         order.sort_by_key(|i| (chunk_no(&fcases[*i].0), *i));
         let mut tmp: Vec<Option<(String, (Case, Vec<u64>, Vec<(&'static str, Fault)>))>> = fcases.into_iter().map(Some).collect();
